@@ -314,7 +314,8 @@ PROPS['C14'] = {
     'level': 'other',
     'explanation': 'Verus contracts (exact-real model + secondary bit-level lane assertions) on the real bodies of Mul<f64>, Neg, Add for Poly0..Poly8 and '
                    'IntOfLogPoly4::{Mul, Neg}, and of translate for Poly0..Poly8, IntOfLog<T>, IntOfLogPoly4: every lane is s*c, -c, c1+c2; translate changes the additive '
-                   'constant only. Kani (bit-precise, compiled crate): translate of every PolyK and PolyN (empty -> constant c), `*=` equals `*` lane by lane for a finite '
+                   'constant only. Pointwise corollaries proved from the lane contracts alone for every degree and every real X: lemma_scale_value_k ((s f)(X) = s f(X)), '
+                   'lemma_add_value_k ((f+g)(X) = f(X)+g(X)), lemma_translate_value_k (translate raises the value by c at every X). Kani (bit-precise, compiled crate): translate of every PolyK and PolyN (empty -> constant c), `*=` equals `*` lane by lane for a finite '
                    'scalar set and integer-valued coefficients; the generic wrappers Log<T>/IntOfLog<T> with a recording piece type; IntOfLogPoly4 +/- by value and by reference.',
     'assumptions': [FM_NOTE, FM_BITS, TY_NOTE,
                     'bounded (Kani): `*=`, the IntOfLog<T> wrapper and IntOfLogPoly4 +/- are checked for integer-valued operands in [-100,100] and scalars from {0, -1, 2, 0.5, 3}; PolyN::translate for lengths 0, 1, 3',
